@@ -672,6 +672,13 @@ func c09scriptChild(raw json.RawMessage, scratch string) {
 		}
 		wk.ChildCase(i, prog)
 		runScript(r, prog, scratch)
+		if i == a.Start {
+			sp := *prog
+			if len(sp.Ops) > 10 {
+				sp.Ops = sp.Ops[:10]
+			}
+			r.Sample(map[string]interface{}{"mode": "scripted", "program_first_ops": sp, "total_ops": len(prog.Ops)})
+		}
 	}
 	wk.ChildDone(r)
 }
@@ -861,6 +868,9 @@ func c09freeChild(raw json.RawMessage, scratch string) {
 		}
 		wk.ChildCase(i, fc)
 		runFree(r, fc, scratch)
+		if i == a.Start {
+			r.Sample(map[string]interface{}{"mode": "free-running", "case": fc})
+		}
 	}
 	wk.ChildDone(r)
 }
